@@ -10,6 +10,7 @@ import OFV.Proofs.C19Qrom
 import OFV.Proofs.C19QR
 import OFV.Proofs.C19Cost
 import OFV.Proofs.C19LambdaFinal
+import OFV.Proofs.C19Mono
 
 namespace OFV.C19
 open OFV.Model.C19 OFV.Spec.C19
@@ -124,6 +125,48 @@ theorem iters_monotone (lam lam' dE dE' : Rat) (a b : Nat) (ha : iters lam dE = 
 example : iters 2 1 = some 4 := OFV.Proofs.C19C.iters_two_one
 
 example : (4 : Nat) ≤ 4 := iters_monotone 2 2 1 1 4 4 OFV.Proofs.C19C.iters_two_one OFV.Proofs.C19C.iters_two_one (le_refl _) (le_refl _)
+
+/-! ### cost functions and QROM helpers, beyond the statements above -/
+
+/-- `cost_sparse`: the per-step Toffoli cost is positive for ALL parameters and does not depend on `lam`, `dE`;
+hence the total is monotone in `lam` and in `1/dE` (no side condition). -/
+theorem sparse_total_monotone (n d chi br : Nat) (lam lam' dE dE' : Rat) (c c' : Costs)
+    (h : sparseCost n lam d dE chi br = some c) (h' : sparseCost n lam' d dE' chi br = some c')
+    (hl : lam ≤ lam') (hd : dE' ≤ dE) : 0 < c.step ∧ c.step = c'.step ∧ c.total ≤ c'.total := by
+  obtain ⟨h1, h2⟩ := OFV.Proofs.C19M.sparse_total_mono n d chi br lam lam' dE dE' c c' h h' hl hd
+  obtain ⟨_, _, hs, _⟩ := OFV.Proofs.C19C.sparse_total n lam d dE chi br c h
+  exact ⟨by rw [hs]; exact OFV.Proofs.C19M.sparseStepCost_pos n d chi br, h1, h2⟩
+
+/-- `compute_cost` (THC), even number of spin orbitals: the per-step cost does not depend on `lam`, `dE`, and the
+total is monotone in `lam` and `1/dE` whenever that per-step cost is non-negative. -/
+theorem thc_total_monotone (n chi beta M br : Nat) (lam lam' dE dE' : Rat) (c c' : Costs) (hn : n % 2 = 0)
+    (h : thcCost n lam dE chi beta M br = some c) (h' : thcCost n lam' dE' chi beta M br = some c')
+    (hl : lam ≤ lam') (hd : dE' ≤ dE) : c.step = c'.step ∧ (0 ≤ c.step → c.total ≤ c'.total) :=
+  OFV.Proofs.C19M.thc_total_mono n chi beta M br lam lam' dE dE' c c' hn h h' hl hd
+
+/-- `QR2` beyond the searched grid: for table sizes `L1, L2 ≤ 2^16` the returned value is minimal over ALL
+exponents `k1, k2 ≥ 1` (larger blocks only add to the `M (2^(k1+k2) - 1)` term once `⌈L/2^k⌉` has reached 1). -/
+theorem qr2_global_minimiser (L1 L2 M : Nat) (h1 : L1 ≤ 2 ^ 16) (h2 : L2 ≤ 2 ^ 16) (j1 j2 : Nat) (hj1 : 1 ≤ j1) (hj2 : 1 ≤ j2) :
+    (qr2 L1 L2 M).2.2 ≤ qr2Value L1 L2 M j1 j2 := by
+  have hg := OFV.Proofs.C19M.grid_all _ _ _ _ (qr2_minimiser L1 L2 M) (min j1 16) (min j2 16)
+    ⟨by omega, by omega⟩ ⟨by omega, by omega⟩
+  refine le_trans hg ?_
+  unfold qr2Value
+  exact OFV.Proofs.C19M.clamp_le L1 L2 (fun t => M * (2 ^ t - 1))
+    (fun a b hab => Nat.mul_le_mul_left _ (Nat.sub_le_sub_right (Nat.pow_le_pow_right (by norm_num) hab) 1)) h1 h2 j1 j2
+
+/-- `QI2` beyond the searched grid, same statement. -/
+theorem qi2_global_minimiser (L1 L2 : Nat) (h1 : L1 ≤ 2 ^ 16) (h2 : L2 ≤ 2 ^ 16) (j1 j2 : Nat) (hj1 : 1 ≤ j1) (hj2 : 1 ≤ j2) :
+    (qi2 L1 L2).2.2 ≤ qi2Value L1 L2 j1 j2 := by
+  have hg := OFV.Proofs.C19M.grid_all _ _ _ _ (qi2_minimiser L1 L2) (min j1 16) (min j2 16)
+    ⟨by omega, by omega⟩ ⟨by omega, by omega⟩
+  refine le_trans hg ?_
+  unfold qi2Value
+  exact OFV.Proofs.C19M.clamp_le L1 L2 (fun t => 2 ^ t)
+    (fun a b hab => Nat.pow_le_pow_right (by norm_num) hab) h1 h2 j1 j2
+
+example : (qr2 100 37 7).2.2 ≤ qr2Value 100 37 7 20 3 :=
+  qr2_global_minimiser 100 37 7 (by norm_num) (by norm_num) 20 3 (by norm_num) (by norm_num)
 
 /-! ### `lambda_norm` and the Jordan-Wigner image -/
 
